@@ -140,8 +140,31 @@ fn verif_root() -> PathBuf {
     std::env::var("VERIF_ROOT").map(PathBuf::from).unwrap_or_else(|_| PathBuf::from("/verif"))
 }
 
-fn load_known(prop: &str) -> Vec<(String, String, String)> {
-    // (id, class_prefix, what) of status == "known" entries for this property
+/// one `status == "known"` entry: a violation is this finding when its class starts with
+/// `class_prefix` and - if the entry names specific inputs - its detail contains one of them
+struct Known {
+    id: String,
+    class_prefix: String,
+    what: String,
+    detail_contains: Vec<String>,
+}
+impl Known {
+    fn class_matches(&self, class: &str) -> bool {
+        class.starts_with(self.class_prefix.as_str())
+    }
+    fn matches(&self, class: &str, detail: &J) -> bool {
+        if !self.class_matches(class) {
+            return false;
+        }
+        if self.detail_contains.is_empty() {
+            return true;
+        }
+        let d = detail.to_string();
+        self.detail_contains.iter().any(|needle| d.contains(needle.as_str()))
+    }
+}
+
+fn load_known(prop: &str) -> Vec<Known> {
     let p = verif_root().join("known_findings.json");
     let mut out = vec![];
     if let Ok(txt) = std::fs::read_to_string(&p) {
@@ -151,12 +174,15 @@ fn load_known(prop: &str) -> Vec<(String, String, String)> {
         });
         for f in j["findings"].as_array().cloned().unwrap_or_default() {
             if f["property"].as_str() == Some(prop) && f["status"].as_str() == Some("known") {
+                let detail_contains: Vec<String> =
+                    f["detail_contains"].as_array().cloned().unwrap_or_default().iter().filter_map(|x| x.as_str().map(|s| s.to_string())).collect();
                 for c in f["class_prefixes"].as_array().cloned().unwrap_or_default() {
-                    out.push((
-                        f["id"].as_str().unwrap_or("?").to_string(),
-                        c.as_str().unwrap_or("").to_string(),
-                        f["what"].as_str().unwrap_or("").to_string(),
-                    ));
+                    out.push(Known {
+                        id: f["id"].as_str().unwrap_or("?").to_string(),
+                        class_prefix: c.as_str().unwrap_or("").to_string(),
+                        what: f["what"].as_str().unwrap_or("").to_string(),
+                        detail_contains: detail_contains.clone(),
+                    });
                 }
             }
         }
@@ -171,6 +197,17 @@ fn main() {
             for p in props::ALL {
                 println!("{p}");
             }
+        }
+        "families" => {
+            // sizes of the spaces of one check (sizing aid; no subject code runs)
+            let t0 = std::time::Instant::now();
+            let fams = props::families(&args.prop, args.tier, &args.variant);
+            let mut total = 0u64;
+            for f in &fams {
+                println!("{:>12}  {}", f.count, f.name);
+                total += f.count;
+            }
+            println!("{:>12}  total ({} families, materialised in {:.1}s)", total, fams.len(), t0.elapsed().as_secs_f64());
         }
         "run" => {
             let prop = args.prop.clone();
@@ -206,20 +243,35 @@ fn main() {
             let mut known_hits: std::collections::BTreeMap<String, (String, u64)> = Default::default();
             let mut unknown: Vec<J> = vec![];
             let counts = summary["viol_counts"].as_object().cloned().unwrap_or_default();
+            let mut listed_per_class: std::collections::BTreeMap<String, u64> = Default::default();
             for v in summary["violations"].as_array().cloned().unwrap_or_default() {
                 let class = v["class"].as_str().unwrap_or("").to_string();
-                if let Some((id, _, what)) = known.iter().find(|(_, pre, _)| class.starts_with(pre.as_str())) {
-                    let e = known_hits.entry(id.clone()).or_insert((what.clone(), 0));
-                    let _ = e;
-                    let _ = class;
+                *listed_per_class.entry(class.clone()).or_insert(0) += 1;
+                if let Some(k) = known.iter().find(|k| k.matches(&class, &v["detail"])) {
+                    let e = known_hits.entry(k.id.clone()).or_insert((k.what.clone(), 0));
+                    if !k.detail_contains.is_empty() {
+                        e.1 += 1;
+                    }
                 } else {
                     unknown.push(v);
                 }
             }
             for (class, n) in &counts {
-                if let Some((id, _, what)) = known.iter().find(|(_, pre, _)| class.starts_with(pre.as_str())) {
-                    let e = known_hits.entry(id.clone()).or_insert((what.clone(), 0));
-                    e.1 += n.as_u64().unwrap_or(0);
+                let n = n.as_u64().unwrap_or(0);
+                if let Some(k) = known.iter().find(|k| k.class_matches(class)) {
+                    if k.detail_contains.is_empty() {
+                        // the finding is a whole class of violations
+                        let e = known_hits.entry(k.id.clone()).or_insert((k.what.clone(), 0));
+                        e.1 += n;
+                    } else {
+                        // the finding is specific inputs: violations of this class beyond the
+                        // listing cap cannot be told apart from it and are not excused
+                        let listed = listed_per_class.get(class).copied().unwrap_or(0);
+                        if n > listed {
+                            unknown.push(json!({"class": class, "family": "(several)", "idx": 0,
+                                "detail": {"note": format!("{} further violations of this class were counted beyond the per-class listing cap; they are not covered by a known finding", n - listed)}}));
+                        }
+                    }
                 }
             }
             for (id, (what, n)) in &known_hits {
